@@ -32,39 +32,27 @@ Print Assumptions triples_nonzero.
 
 (* --- the document: IDs in order, metadata, type, generated-by, date, matrix --- *)
 
-(* reading back the tree the writer produces gives the table it was written from.  canon_jt
-   only identifies "no metadata" with "every entry empty", which no reader can tell apart;
-   the side condition excludes tables with exactly one empty axis (see the two theorems
-   below: outside the domain of the property, and the writer mishandles them) *)
+(* reading back the tree the writer produces gives the table it was written from, for every
+   well-formed table, tables with an empty axis included.  canon_jt only identifies "no
+   metadata" with "every entry empty", which no reader can tell apart *)
 Theorem json_tree_roundtrip : forall c tid,
-  wfj c -> (jnobs c = 0 <-> jnsamp c = 0)%nat ->
-  from_json (to_json_tree c tid) = ROk (canon_jt c).
+  wfj c -> from_json (to_json_tree c tid) = ROk (canon_jt c).
 Proof. exact JsonProofs.json_tree_roundtrip. Qed.
 Print Assumptions json_tree_roundtrip.
 
 Theorem json_tree_roundtrip_normal : forall c tid,
-  wfj c -> (jnobs c = 0 <-> jnsamp c = 0)%nat -> md_normal (j_omd c) -> md_normal (j_smd c) ->
+  wfj c -> md_normal (j_omd c) -> md_normal (j_smd c) ->
   from_json (to_json_tree c tid) = ROk c.
 Proof. exact JsonProofs.json_tree_roundtrip_normal. Qed.
 Print Assumptions json_tree_roundtrip_normal.
 
 Example json_tree_roundtrip_witness :
-  wfj witness_table /\ (jnobs witness_table = 0 <-> jnsamp witness_table = 0)%nat
-  /\ md_normal (j_omd witness_table) /\ md_normal (j_smd witness_table).
+  wfj witness_table /\ md_normal (j_omd witness_table) /\ md_normal (j_smd witness_table).
 Proof. exact JsonProofs.witness_table_ok. Qed.
 
-(* outside the domain (an axis is empty): a table with no observations is written with
-   "columns": [] whatever its samples, so they are lost on reading back *)
-Theorem empty_observation_axis_loses_samples_refuted :
-  exists c tid c', wfj c /\ from_json (to_json_tree c tid) = ROk c' /\ j_sids c' <> j_sids c.
-Proof. exact JsonProofs.empty_observation_axis_loses_samples. Qed.
-Print Assumptions empty_observation_axis_loses_samples_refuted.
-
-(* outside the domain: with observations but no samples the text is not JSON at all *)
-Theorem empty_sample_axis_unclosed_refuted :
-  exists c, wfj c /\ writer_closes_columns c = false.
-Proof. exact JsonProofs.empty_sample_axis_unclosed. Qed.
-Print Assumptions empty_sample_axis_unclosed_refuted.
+(* a 0 x 2 and a 2 x 0 table meet the hypothesis too *)
+Example json_tree_roundtrip_empty_axis_witness : wfj empty_obs_table /\ wfj empty_samp_table.
+Proof. exact JsonProofs.empty_axis_tables_ok. Qed.
 
 (* --- streamed writer = string writer --- *)
 
